@@ -5,7 +5,7 @@ Property: after any sequence of additive or overwriting insertions (duplicates i
 batches), reading any inserted coordinate returns what a plain dictionary would hold, and reading
 a coordinate never inserted raises.
 -/
-import PorepyVerif.C46.Lemmas
+import PorepyVerif.C46.LemmasK
 
 namespace PorepyVerif.C46
 
@@ -87,6 +87,286 @@ theorem coords_nodup_reachable (ops : List (List (Coord × Rat) × Bool)) :
   | nil => intro s h; exact h
   | cons o ops ih => intro s h; exact ih _ (coords_nodup_step s o.1 o.2 h)
 
+/-! ## Deepening round: order of `np.unique`, the vector returned by `add`, storage order,
+    docstring corollaries, `value_dim = k` -/
+
+/-- `lexLe` (column order of `np.unique(axis=1)`) is a total order on coordinates of any lengths:
+    reflexive, total, transitive, antisymmetric. -/
+theorem lexLe_total_order (a b c : Coord) :
+    lexLe a a = true ∧ (lexLe a b = true ∨ lexLe b a = true) ∧
+    (lexLe a b = true → lexLe b c = true → lexLe a c = true) ∧
+    (lexLe a b = true → lexLe b a = true → a = b) :=
+  ⟨lexLe_refl a, lexLe_total a b, lexLe_trans a b c, lexLe_antisymm a b⟩
+
+/-- `isort` returns a sorted permutation of its input. -/
+theorem isort_sorted_perm (l : List Coord) :
+    (isort l).Pairwise (fun a b => lexLe a b = true) ∧ (isort l).Perm l :=
+  ⟨sortedLe_isort l, perm_isort l⟩
+
+/-- `uniqueCoords` (= `np.unique(coord_array, axis=1)`): strictly increasing, and exactly the
+    coordinates of the batch. -/
+theorem uniqueCoords_spec (keys : List Coord) :
+    (uniqueCoords keys).Pairwise (fun a b => lexLe a b = true ∧ a ≠ b) ∧
+    ∀ c, c ∈ uniqueCoords keys ↔ c ∈ keys :=
+  ⟨sortedLt_uniqueCoords keys, fun c => mem_uniqueCoords c keys⟩
+
+/-- The coordinates appended by `add`: strictly increasing, exactly the batch coordinates that
+    were not stored before. -/
+theorem freshCoords_spec (s : Store) (keys : List Coord) :
+    (freshCoords s keys).Pairwise (fun a b => lexLe a b = true ∧ a ≠ b) ∧
+    ∀ c, c ∈ freshCoords s keys ↔ (c ∈ keys ∧ abs s c = none) :=
+  ⟨sortedLt_freshCoords s keys, mem_freshCoords s keys⟩
+
+/-- Specification of the vector returned by `add` (`unique_2_all[~is_mem]`).  With `keys` the
+    coordinates of the batch in the order given:
+    (a) every returned position is a valid batch position, the coordinate there was not stored
+        before, and it is the FIRST occurrence of that coordinate in the batch;
+    (b) every coordinate that was new is listed;
+    (c) the listed coordinates are strictly increasing lexicographically (so: one position per new
+        distinct coordinate, in lexicographic order of the coordinates);
+    (d) the positions are pairwise distinct. -/
+theorem add_ret_spec (s : Store) (batch : List (Coord × Rat)) (additive : Bool) :
+    (∀ i ∈ (add s batch additive).2, ∃ c, (batch.map (·.1))[i]? = some c ∧ abs s c = none ∧
+        ∀ j, j < i → (batch.map (·.1))[j]? ≠ some c) ∧
+    (∀ c ∈ batch.map (·.1), abs s c = none →
+        ∃ i ∈ (add s batch additive).2, (batch.map (·.1))[i]? = some c) ∧
+    (((add s batch additive).2).map (fun i => (batch.map (·.1)).getD i [])).Pairwise
+        (fun a b => lexLe a b = true ∧ a ≠ b) ∧
+    ((add s batch additive).2).Nodup := by
+  have hr : (add s batch additive).2 =
+      (freshCoords s (batch.map (·.1))).map (fun u => (batch.map (·.1)).idxOf u) := rfl
+  have hmap := ret_map_getD s batch additive
+  have hc : (((add s batch additive).2).map (fun i => (batch.map (·.1)).getD i [])).Pairwise
+      (fun a b => lexLe a b = true ∧ a ≠ b) := by
+    rw [hmap]; exact sortedLt_freshCoords s _
+  refine ⟨?_, ?_, hc, ?_⟩
+  · intro i hi
+    rw [hr] at hi
+    rcases List.mem_map.mp hi with ⟨u, hu, rfl⟩
+    have hm := (mem_freshCoords s _ u).mp hu
+    exact ⟨u, (idxOf_first _ u hm.1).1, hm.2, (idxOf_first _ u hm.1).2⟩
+  · intro c hc hn
+    refine ⟨(batch.map (·.1)).idxOf c, ?_, (idxOf_first _ c hc).1⟩
+    rw [hr]
+    exact List.mem_map.mpr ⟨c, (mem_freshCoords s _ c).mpr ⟨hc, hn⟩, rfl⟩
+  · rw [List.pairwise_map] at hc
+    exact List.Pairwise.imp (fun h e => h.2 (by rw [e])) hc
+
+/-- Length of the returned vector = number of new distinct coordinates: it equals the length of
+    ANY duplicate-free enumeration of the batch coordinates that were not stored before. -/
+theorem add_ret_length (s : Store) (batch : List (Coord × Rat)) (additive : Bool) (l : List Coord)
+    (hl : l.Nodup) (hm : ∀ c, c ∈ l ↔ (c ∈ batch.map (·.1) ∧ abs s c = none)) :
+    ((add s batch additive).2).length = l.length := by
+  show ((freshCoords s (batch.map (·.1))).map _).length = _
+  rw [List.length_map]
+  apply List.Perm.length_eq
+  rw [List.perm_ext_iff_of_nodup (sortedLt_freshCoords s _).nodup hl]
+  intro c
+  rw [mem_freshCoords, hm]
+
+/-- The specification (a)–(c) of `add_ret_spec` determines the returned vector uniquely. -/
+theorem add_ret_unique (s : Store) (batch : List (Coord × Rat)) (additive : Bool) (r : List Nat)
+    (ha : ∀ i ∈ r, ∃ c, (batch.map (·.1))[i]? = some c ∧ abs s c = none ∧
+        ∀ j, j < i → (batch.map (·.1))[j]? ≠ some c)
+    (hb : ∀ c ∈ batch.map (·.1), abs s c = none → ∃ i ∈ r, (batch.map (·.1))[i]? = some c)
+    (hc : (r.map (fun i => (batch.map (·.1)).getD i [])).Pairwise
+        (fun a b => lexLe a b = true ∧ a ≠ b)) :
+    r = (add s batch additive).2 := by
+  have hfresh : r.map (fun i => (batch.map (·.1)).getD i []) = freshCoords s (batch.map (·.1)) := by
+    apply sortedLt_unique _ _ hc (sortedLt_freshCoords s _)
+    intro x
+    rw [mem_freshCoords, List.mem_map]
+    constructor
+    · rintro ⟨i, hi, rfl⟩
+      rcases ha i hi with ⟨c, h1, h2, _⟩
+      have : (batch.map (·.1)).getD i [] = c := by simp [List.getD_eq_getElem?_getD, h1]
+      rw [this]
+      exact ⟨List.mem_of_getElem? h1, h2⟩
+    · rintro ⟨hx, hn⟩
+      rcases hb x hx hn with ⟨i, hi, h1⟩
+      exact ⟨i, hi, by simp [List.getD_eq_getElem?_getD, h1]⟩
+  show r = (freshCoords s (batch.map (·.1))).map (fun u => (batch.map (·.1)).idxOf u)
+  rw [← hfresh, List.map_map]
+  symm
+  calc _ = r.map id := by
+        apply List.map_congr_left
+        intro i hi
+        rcases ha i hi with ⟨c, h1, _, h3⟩
+        have hget : (batch.map (·.1)).getD i [] = c := by simp [List.getD_eq_getElem?_getD, h1]
+        have hmem : c ∈ batch.map (·.1) := List.mem_of_getElem? h1
+        have hf := idxOf_first _ c hmem
+        simp only [Function.comp, hget, id]
+        rcases Nat.lt_trichotomy ((batch.map (·.1)).idxOf c) i with h | h | h
+        · exact absurd hf.1 (h3 _ h)
+        · exact h
+        · exact absurd h1 (hf.2 _ h)
+    _ = r := List.map_id r
+
+/-- Storage order after `add`: the old storage in its old order with the values updated in
+    place, followed by the new distinct coordinates in lexicographic order (`freshCoords`, see
+    `freshCoords_spec`) with their consolidated values. -/
+theorem add_storage_order (s : Store) (batch : List (Coord × Rat)) (additive : Bool)
+    (h : (s.map (·.1)).Nodup) :
+    (add s batch additive).1 =
+      s.map (fun p => (p.1, updated additive batch p)) ++
+        (freshCoords s (batch.map (·.1))).map (fun u => (u, combine additive batch u)) :=
+  add_storage_eq s batch additive h
+
+/-- "Permutation vector applied before the coordinates and data were added to storage": the
+    coordinates appended to the storage are the batch coordinates at the returned positions, in
+    the order of the returned vector; the values stored with them are the consolidated values. -/
+theorem add_ret_is_storage_permutation (s : Store) (batch : List (Coord × Rat)) (additive : Bool)
+    (h : (s.map (·.1)).Nodup) :
+    (add s batch additive).1 =
+      s.map (fun p => (p.1, updated additive batch p)) ++
+        ((add s batch additive).2).map (fun i =>
+          ((batch.map (·.1)).getD i [], combine additive batch ((batch.map (·.1)).getD i []))) := by
+  have e : ((add s batch additive).2).map (fun i =>
+        ((batch.map (·.1)).getD i [], combine additive batch ((batch.map (·.1)).getD i []))) =
+      (((add s batch additive).2).map (fun i => (batch.map (·.1)).getD i [])).map
+        (fun u => (u, combine additive batch u)) := by
+    rw [List.map_map]; rfl
+  rw [e, ret_map_getD]
+  exact add_storage_eq s batch additive h
+
+/-- … in every reachable state (the duplicate-freeness hypothesis is an invariant). -/
+theorem add_storage_order_reachable (ops : List (List (Coord × Rat) × Bool))
+    (batch : List (Coord × Rat)) (additive : Bool) :
+    let s := ops.foldl (fun s o => (add s o.1 o.2).1) []
+    (add s batch additive).1 =
+      s.map (fun p => (p.1, updated additive batch p)) ++
+        (freshCoords s (batch.map (·.1))).map (fun u => (u, combine additive batch u)) :=
+  add_storage_eq _ batch additive (coords_nodup_reachable ops)
+
+/-! ### the docstring of `add`, sentence by sentence -/
+
+/-- "If False, existing values will be overwritten by the new value (if there are duplicates in
+    new coordinates the last of this coordinates are used)": the value read afterwards is the one
+    given at the LAST occurrence of the coordinate in the batch, whatever was stored before. -/
+theorem add_overwrite_last (s : Store) (pre post : List (Coord × Rat)) (c : Coord) (v : Rat)
+    (h : c ∉ post.map (·.1)) :
+    get (add s (pre ++ (c, v) :: post) false).1 [c] = some [v] := by
+  have hv : vals c (pre ++ (c, v) :: post) = vals c pre ++ [v] := by
+    unfold vals
+    have : List.filter (fun p => decide (p.1 = c)) post = [] := by
+      rw [List.filter_eq_nil_iff]
+      intro p hp e
+      exact h (List.mem_map.mpr ⟨p, hp, by simpa using e⟩)
+    simp [List.filter_append, this]
+  have : abs (add s (pre ++ (c, v) :: post) false).1 c = some v := by
+    rw [abs_add_at, hv, specVal_overwrite']
+    simp
+  show List.mapM (get1 _) [c] = _
+  rw [List.mapM_cons, show get1 (add s (pre ++ (c, v) :: post) false).1 c = some v from this]
+  rfl
+
+/-- "If True, values associated with duplicate coordinates (either between new and existing
+    coordinates, or within the new coordinates) are added": the value read afterwards is the
+    stored value (0 if the coordinate was new) plus the sum of ALL values given for it. -/
+theorem add_additive_sum (s : Store) (batch : List (Coord × Rat)) (c : Coord)
+    (h : c ∈ batch.map (·.1)) :
+    get (add s batch true).1 [c] = some [(abs s c).getD 0 + (vals c batch).sum] := by
+  have hsum : ∀ vs : List Rat, vs.foldl (· + ·) 0 = vs.sum := by
+    intro vs
+    induction vs with
+    | nil => rfl
+    | cons x xs ih => rw [List.foldl_cons, foldl_add_shift, ih, List.sum_cons]; grind
+  have hne : vals c batch ≠ [] := fun e => ((vals_eq_nil_iff c batch).mp e) h
+  have : abs (add s batch true).1 c = some ((abs s c).getD 0 + (vals c batch).sum) := by
+    rw [abs_add_at, specVal_nonempty true _ _ hne, ← hsum]
+    cases abs s c with
+    | none => simp only [upd, if_true, Option.getD_none]; congr 1; grind
+    | some e => simp [upd]
+  show List.mapM (get1 _) [c] = _
+  rw [List.mapM_cons, show get1 (add s batch true).1 c = _ from this]
+  rfl
+
+/-- Coordinates not mentioned in the batch keep their value (or stay absent). -/
+theorem add_untouched (s : Store) (batch : List (Coord × Rat)) (additive : Bool) (c : Coord)
+    (h : c ∉ batch.map (·.1)) : abs (add s batch additive).1 c = abs s c := by
+  rw [abs_add_at, (vals_eq_nil_iff c batch).mpr h]
+  rfl
+
+/-! ### `value_dim = k`: what the driver executes (`addK`, `getK` on `k` value rows) -/
+
+/-- The invariant "all rows hold the same coordinates" and the number of rows are preserved. -/
+theorem addK_preserves (st : StoreK) (B : BatchK) (additive : Bool) (h : SameKeys st) :
+    SameKeys (addK st B additive).1 ∧ (addK st B additive).1.length = st.length := by
+  unfold addK
+  split
+  · exact ⟨h, rfl⟩
+  · rcases h with ⟨ks, h⟩
+    exact ⟨⟨_, sameKeys_addRows additive B ks 0 st h⟩, length_addRows additive B 0 st⟩
+
+/-- One `add` on `k` rows commutes with the abstraction to a dictionary of value columns. -/
+theorem addK_refines (st : StoreK) (B : BatchK) (additive : Bool)
+    (hB : ∀ p ∈ B, p.2.length = st.length) (hk : SameKeys st) :
+    absK (addK st B additive).1 = DictK.addBatch additive (absK st) B := by
+  funext c
+  unfold addK
+  split
+  · rename_i he
+    have : B = [] := by simpa using he
+    subst this
+    rfl
+  · rw [addBatchK_at]
+    exact absK_addRows additive c st B hB hk
+
+/-- `get` on `k` rows is the dictionary read, in the implementation's layout (`k` rows of `n`
+    values), including the error case. -/
+theorem getK_refines (st : StoreK) (cs : List Coord) :
+    getK st cs = DictK.get st.length (absK st) cs := getK_eq st cs
+
+/-- Headline theorem for `value_dim = k`: for EVERY history of well-formed add/get calls, started
+    from any `k`-row store whose rows hold the same coordinates, the observable outputs equal
+    those of a dictionary with `List Rat` values. -/
+theorem sparseK_refines_dictK (ops : List OpK) (st : StoreK) (hk : SameKeys st)
+    (hw : ∀ op ∈ ops, op.WF st.length) :
+    runK st ops = specRunK st.length (absK st) ops := by
+  induction ops generalizing st with
+  | nil => rfl
+  | cons op ops ih =>
+    have hop := hw op List.mem_cons_self
+    have hrest : ∀ o ∈ ops, o.WF st.length := fun o ho => hw o (List.mem_cons_of_mem _ ho)
+    cases op with
+    | add B a =>
+      have hp := addK_preserves st B a hk
+      simp only [runK, specRunK, stepK, specStepK]
+      rw [ih _ hp.1 (by rw [hp.2]; exact hrest), addK_refines st B a hop hk, hp.2]
+    | get cs =>
+      simp only [runK, specRunK, stepK, specStepK]
+      rw [ih _ hk hrest, getK_refines]
+
+/-- … in particular from the empty array `SparseNdArray(dim, value_dim = k)`, `k ≥ 1`. -/
+theorem sparseK_refines_dictK_from_empty (k : Nat) (hk : 0 < k) (ops : List OpK)
+    (hw : ∀ op ∈ ops, op.WF k) :
+    runK (List.replicate k []) ops = specRunK k (fun _ => none) ops := by
+  have hs : SameKeys (List.replicate k ([] : Store)) :=
+    ⟨[], fun s hs => by rw [(List.mem_replicate.mp hs).2]; rfl⟩
+  have ha : absK (List.replicate k ([] : Store)) = fun _ => none := by
+    funext c
+    cases k with
+    | zero => omega
+    | succ k => rw [List.replicate_succ, absK_cons]; rfl
+  have := sparseK_refines_dictK ops (List.replicate k []) hs (by simpa using hw)
+  rwa [ha, List.length_replicate] at this
+
+/-- The vector returned by `add` for `value_dim = k` depends on the coordinates only: it is the
+    vector specified by `add_ret_spec` for the coordinate list of the batch. -/
+theorem addK_ret (s : Store) (st : StoreK) (B : BatchK) (additive : Bool) :
+    (addK (s :: st) B additive).2 =
+      (freshCoords s (B.map (·.1))).map (fun u => (B.map (·.1)).idxOf u) := by
+  unfold addK
+  split
+  · rename_i he
+    have : B = [] := by simpa using he
+    subst this
+    rfl
+  · show (freshCoords s ((rowBatch 0 B).map (·.1))).map
+      (fun u => ((rowBatch 0 B).map (·.1)).idxOf u) = _
+    rw [keys_rowBatch]
+
+
 /-! ### non-vacuity: concrete histories (the replay of finding F15 among them) -/
 
 /-- F15 history: add [2]→1, add [0]→5, add {[0]→10,[2]→20}, get [0],[2]  gives [10,20]. -/
@@ -96,5 +376,85 @@ example :
 
 example : run [] [.add [([1, 2], 3), ([1, 2], 4)] true, .get [[1, 2]], .get [[0, 0]]]
     = [none, some (some [7]), some none] := by decide +kernel
+
+/-! ### non-vacuity of the deepening-round theorems -/
+
+example : lexLe [1, -5] [1, 2] = true ∧ lexLe [1, 2] [1, -5] = false ∧ lexLe [-1000000] [1000000] = true := by
+  decide
+
+example : isort [[2, 1], [0, 5], [2, -1], [0, 5]] = [[0, 5], [0, 5], [2, -1], [2, 1]] := by decide
+
+example : uniqueCoords [[2, 1], [0, 5], [2, -1], [0, 5]] = [[0, 5], [2, -1], [2, 1]] := by decide
+
+/-- stored: (0,5); batch: (2,1) (0,5) (2,1) (-1,7) (-1,7).  New are (-1,7) < (2,1); their first
+    occurrences are at positions 3 and 0. -/
+example : (add [([0, 5], 1)] [([2, 1], 1), ([0, 5], 2), ([2, 1], 3), ([-1, 7], 4), ([-1, 7], 5)] false).2
+    = [3, 0] := by decide +kernel
+
+/-- returned vector [3, 0] and appended storage (-1,7), (2,1) = batch[3], batch[0] -/
+example : (add [([0, 5], 1)] [([2, 1], 1), ([0, 5], 2), ([2, 1], 3), ([-1, 7], 4), ([-1, 7], 5)] false).1
+    = [([0, 5], 2), ([-1, 7], 5), ([2, 1], 3)] := by decide +kernel
+
+/-- the hypotheses of `add_ret_length` are satisfiable for every input -/
+example (s : Store) (batch : List (Coord × Rat)) :
+    ∃ l : List Coord, l.Nodup ∧ ∀ c, c ∈ l ↔ (c ∈ batch.map (·.1) ∧ abs s c = none) :=
+  ⟨freshCoords s (batch.map (·.1)), (sortedLt_freshCoords s _).nodup, mem_freshCoords s _⟩
+
+/-- the hypotheses of `add_ret_unique` are satisfiable for every input (by the returned vector) -/
+example (s : Store) (batch : List (Coord × Rat)) (a : Bool) :
+    ∃ r : List Nat,
+      (∀ i ∈ r, ∃ c, (batch.map (·.1))[i]? = some c ∧ abs s c = none ∧
+        ∀ j, j < i → (batch.map (·.1))[j]? ≠ some c) ∧
+      (∀ c ∈ batch.map (·.1), abs s c = none → ∃ i ∈ r, (batch.map (·.1))[i]? = some c) ∧
+      (r.map (fun i => (batch.map (·.1)).getD i [])).Pairwise (fun a b => lexLe a b = true ∧ a ≠ b) :=
+  ⟨_, (add_ret_spec s batch a).1, (add_ret_spec s batch a).2.1, (add_ret_spec s batch a).2.2.1⟩
+
+/-- storage order: old entries keep their place (values updated), new ones follow sorted -/
+example : (add [([2], 1), ([0], 5)] [([0], 10), ([3], 7), ([2], 20), ([1], 8), ([3], 9)] false).1
+    = [([2], 20), ([0], 10), ([1], 8), ([3], 9)] := by decide +kernel
+
+example : (([([2], (1 : Rat)), ([0], 5)] : Store).map (·.1)).Nodup := by decide
+
+example : get (add [([1], 7)] ([([1], 2)] ++ ([1], 3) :: [([0], 4)]) false).1 [[1]] = some [3] :=
+  add_overwrite_last _ _ _ _ _ (by decide)
+
+example : get (add [([1], 7)] [([1], 2), ([0], 4), ([1], 3)] true).1 [[1]] = some [12] := by
+  decide +kernel
+
+example : get (add [] [([1], 2), ([0], 4), ([1], 3)] true).1 [[1]] = some [5] := by
+  decide +kernel
+
+example : abs (add [([1], 7)] [([0], 4)] true).1 [1] = abs [([1], 7)] [1] :=
+  add_untouched _ _ _ _ (by decide)
+
+/-- value_dim = 2: additive batch with an in-batch duplicate, overwrite of one coordinate, reads
+    in both orders, read of a missing coordinate -/
+example :
+    runK (List.replicate 2 [])
+      [.add [([1], [1, 10]), ([0], [2, 20]), ([1], [3, 30])] true, .get [[1], [0]],
+       .add [([0], [5, 50])] false, .get [[0], [1]], .get [[7]]]
+    = [none, some (some [[4, 2], [40, 20]]), none, some (some [[5, 4], [50, 40]]), some none] := by
+  decide +kernel
+
+/-- … and the hypotheses of the headline theorem hold for that history -/
+example :
+    runK (List.replicate 2 [])
+      [.add [([1], [1, 10]), ([0], [2, 20]), ([1], [3, 30])] true, .get [[1], [0]]]
+    = specRunK 2 (fun _ => none)
+      [.add [([1], [1, 10]), ([0], [2, 20]), ([1], [3, 30])] true, .get [[1], [0]]] :=
+  sparseK_refines_dictK_from_empty 2 (by decide) _ (by
+    intro op h
+    simp only [List.mem_cons, List.not_mem_nil, or_false] at h
+    rcases h with rfl | rfl
+    · intro p hp
+      simp only [List.mem_cons, List.not_mem_nil, or_false] at hp
+      rcases hp with rfl | rfl | rfl <;> rfl
+    · trivial)
+
+example : SameKeys [[([1], 2), ([0], 3)], [([1], 5), ([0], 7)]] := ⟨[[1], [0]], by simp⟩
+
+example : (addK [[([0, 5], 1)], [([0, 5], 2)]]
+    [([2, 1], [1, 1]), ([0, 5], [2, 2]), ([2, 1], [3, 3]), ([-1, 7], [4, 4])] false).2 = [3, 0] := by
+  decide +kernel
 
 end PorepyVerif.C46
